@@ -251,6 +251,10 @@ package iscp
 
 //@ lockinv[C16] Conn.upstreamCallAckMu: self.upstreamCallAckCh != nil && forall(id, string, imp(has(self.upstreamCallAckCh, id), ackKeyed(self.upstreamCallAckCh[id]) && ackKey(self.upstreamCallAckCh[id]) == id))
 //@ lockinv[C16] Conn.replyCallsChsMu: self.replyCallChs != nil && forall(id, string, imp(has(self.replyCallChs, id), replyKeyed(self.replyCallChs[id]) && replyKey(self.replyCallChs[id]) == id))
+// every registered ack / reply channel has a free slot for its single delivery, so the two
+// dispatchers never block on a caller that has gone away (C08: no stalled dispatcher)
+//@ lockinv[C16,C08] Conn.upstreamCallAckMu: forall(id, string, imp(has(self.upstreamCallAckCh, id), cap(self.upstreamCallAckCh[id]) >= 1))
+//@ lockinv[C16,C08] Conn.replyCallsChsMu: forall(id, string, imp(has(self.replyCallChs, id), cap(self.replyCallChs[id]) >= 1))
 //@ typeassume Conn: !replyKeyed(self.downstreamCallCh) && !replyKeyed(self.replyCallCh)
 //@ typeassume Conn: self.state != nil && self.state.cond != nil && self.state.RWMutex != nil
 
@@ -303,6 +307,7 @@ package iscp
 //@ func (*Conn).readUpstreamCallAckLoop
 //@   props C16
 //@   assert send: !has(c.upstreamCallAckCh, v.CallID) && unheld(c.upstreamCallAckMu)   // one delivery per registration, never under the lock
+//@   assert send: cap(ch) >= 1   // ... into a channel with a free slot: the ack dispatcher cannot block on a caller whose context expired
 
 //@ func (*Conn).readDownstreamCallLoop
 //@   props C16
@@ -310,6 +315,7 @@ package iscp
 //@   after call ReceiveDownstreamCall: consulted = (res0.RequestCallID == "")
 //@   after call (*sync.RWMutex).Lock: consulted = true
 //@   loop 1 invariant consulted   // every reply call is looked up in the reply table before the next message is taken
+//@   assert send: imp(replyKeyed(ch), cap(ch) >= 1)   // the registered reply channel has a free slot
 
 // ---------------------------------------------------------------- C20: flush policies
 //@ func (*flushPolicyNone).IsFlush
